@@ -3,8 +3,10 @@ CONSTANTS
   Ids = {"i1", "i2"}
   Tos = {"none", "server", "bare", "full"}
   RFroms = {"exact", "absent", "bareOf", "otherRes", "ownFull", "ownOther", "ownBare", "server", "stranger", "look", "look2"}
-  Types = {"result", "error", "errorBare", "set"}
+  Types = {"result", "error", "errorBare", "set", "get"}
   OpenKinds = {"plain", "sm", "smr", "resumed"}
+  Cids = {"fresh", "empty", "dup"}
+  IdRule = "replace"
   MaxHist = 99
 INVARIANTS TypeOK AtMostOnce DoneOnce NonePending
 PROPERTIES WrongSender RightSender FreshOpen
